@@ -13,18 +13,18 @@ P = {
     "C01": dict(
         technique="MIR dataflow + CFG cut-set (must-pass) rules over RpIdVerifier/Client",
         text="Decides the structural clauses of RP-ID binding on every path of the compiled program: https gate, DNS-host source, localhost gate, "
-             "label-aware suffix test (separator evidence), registrable-domain gate in web arm, Android arm and is_valid_rp_id, and that the "
+             "label-aware suffix test (separator evidence), registrable-domain gate in web arm, Android arm and is_valid_rp_id (applied to the ASCII/punycode form the table is keyed in, with empty labels rejected over the whole name), and that the "
              "authenticator request's rp id derives only from the validated result and is cut by validation success. Does not decide url/idna string semantics.",
         ref="DESIGN.md §3 C01"),
     "C02": dict(
         technique="MIR value-flow slices from response fields to their sources; resolved-callee identity",
-        text="Decides provenance clauses of registration: clientData type/challenge/origin/hash sources, both authenticator-data copies from one value, id/rawId from one "
+        text="Decides provenance clauses of registration: clientData type/challenge/origin/hash sources (the origin rendered as the URL's ASCII serialisation), both authenticator-data copies from one value, id/rawId from one "
              "credential id, public vs private COSE key routing, rpIdHash source, first-match algorithm choice, exactly one save. Not crypto validity.",
         ref="DESIGN.md §3 C02"),
     "C03": dict(
         technique="MIR byte-layout extraction of the signature target + value-flow slices + decision table of the error mapping",
         text="Decides that the signed buffer is authData||clientDataHash of the same authData that is returned, that the key comes from the credential that is returned, "
-             "clientData type is webauthn.get, no attested data in assertions, and the NoCredentials->CredentialNotFound mapping. Not ECDSA correctness.",
+             "clientData type is webauthn.get with the caller's origin rendered as the URL's ASCII serialisation, no attested data in assertions, and the NoCredentials->CredentialNotFound mapping. Not ECDSA correctness.",
         ref="DESIGN.md §3 C03"),
     "C04": dict(
         technique="CFG must-pass (consent dominates effects) + decision-table extraction of the consent helper",
@@ -34,7 +34,7 @@ P = {
     "C05": dict(
         technique="MIR value-flow of lookup arguments + per-impl store-contract rule (parameter must be used in a comparison)",
         text="Decides lookup arguments (allow/exclude list, rp id) at both call sites, first-result selection, the exclusion outcome table, and for every CredentialStore impl in "
-             "the workspace that wrappers forward ids/rp_id unchanged and leaf stores use rp_id. Shipped leaf stores ignoring rp_id are recorded known findings.",
+             "the workspace that wrappers forward ids/rp_id unchanged, leaf stores use rp_id and match listed ids by equality of the whole id. Shipped leaf stores ignoring rp_id are recorded known findings.",
         ref="DESIGN.md §3 C05"),
     "C06": dict(
         technique="taint analysis over MIR value flow + impl-table and type-reachability rules",
@@ -48,7 +48,7 @@ P = {
         ref="DESIGN.md §3 C07"),
     "C08": dict(
         technique="MIR arithmetic rule (no wrapping/panicking op on counter-derived operands) + value-flow (reported = stored)",
-        text="Decides: initial counter constant, non-wrapping non-panicking increment by the constant 1, reported counter and stored counter derive from the same definition, "
+        text="Decides: initial counter constant, non-wrapping non-panicking increment by the constant 1, reported counter and stored counter derive from the same definition (and the authenticator-data container keeps the counter it is given), "
              "no rewrite when the credential has no counter. Not whole-history monotonicity.",
         ref="DESIGN.md §3 C08"),
     "C09": dict(
